@@ -20,14 +20,14 @@ import time
 REPO = "/repo"
 PKG = "processscheduler"
 PROPS = {
-    "task.py": ["C01", "C02", "C05", "C06", "C18", "C11"],
+    "task.py": ["C01", "C02", "C05", "C06", "C18", "C11", "C08"],
     "resource.py": ["C02", "C18", "C04", "C08"],
     "constraint.py": ["C10", "C03", "C18"],
     "task_constraint.py": ["C03", "C05", "C06", "C18", "C09"],
-    "resource_constraint.py": ["C04", "C05", "C18"],
+    "resource_constraint.py": ["C04", "C05", "C18", "C06"],
     "first_order_logic.py": ["C10"],
-    "indicator.py": ["C08", "C07"],
-    "objective.py": ["C08", "C07"],
+    "indicator.py": ["C08", "C07", "C05"],
+    "objective.py": ["C08", "C07", "C05"],
     "function.py": ["C08", "C16"],
     "indicator_constraint.py": ["C08", "C10", "C18", "C05"],
     "buffer.py": ["C09", "C18"],
